@@ -105,6 +105,16 @@ func Shrink(t *testing.T, l Lens, p *Plan, class string, maxRuns int, maxWall ti
 				cur.Tape = cur.Tape[:k]
 			}
 		}
+		// 4b. PCT: fewer priority change points
+		for i := 0; i < len(cur.Change); {
+			q := cur.Clone()
+			q.Change = append(q.Change[:i:i], q.Change[i+1:]...)
+			if test(q) {
+				cur, changed = q, true
+			} else {
+				i++
+			}
+		}
 		// 5. lens-specific
 		if s, ok := l.(Simplifier); ok {
 			for _, q := range s.Simplify(cur) {
